@@ -18,7 +18,7 @@ ATOMS = [
     "1", "2**70", "True", "'s'", "''", "1.5", "b'x'", "None",
     "A()", "B()", "C()", "D()", "M()", "Outer.Inner()", "Outer.Inner.Deep()",
     "A", "C", "int", "type", "NoneType", "Outer.Inner",
-    "func", "lam", "len", "A().meth", "A.smeth", "A.cmeth", "[].append",
+    "func", "lam", "len", "A().meth", "A.smeth", "A.cmeth", "[].append", "Handler()", "partial(func, 1)",
     "make_gen()",
     "MyList([1])", "MyDict(a=1)", "MySet({1})", "MyTuple((1,))", "NT(1, 'a')", "frozenset([1])",
 ]
